@@ -818,6 +818,8 @@ class OrderEval:
         if isinstance(l, ast.Tuple) and isinstance(r, ast.Tuple) and len(l.elts) == len(r.elts):
             return _lex([self.rel(fi, a, b, case, eq_only) for a, b in zip(l.elts, r.elts)])
         cl, cr = self.comp_of(fi, l, eq_only), self.comp_of(fi, r, eq_only)
+        if cl is not None and cr is not None and cl == cr:
+            return "eq"  # a component of one operand compared with itself: equal in every case
         if cl is None or cr is None or cl[0] != cr[0] or cl[1] == cr[1]:
             raise AnalysisError(f"{fi.where}: comparison of `{unparse(l)}` with `{unparse(r)}` is not between the same key component of the two operands")
         if self.discover:
